@@ -162,7 +162,7 @@ pub fn run(opts: &Opts) -> Report {
                 continue;
             }
             let before = read();
-            let pick = rng.below(26);
+            let pick = rng.below(27);
             let (name, read_only): (String, bool) = match pick {
                 0..=3 => {
                     let k = rng.range(1, 5) as usize;
@@ -292,6 +292,26 @@ pub fn run(opts: &Opts) -> Report {
                     app = ripd::verif_export::VerifApp::new(data_dir.clone(), ws.clone());
                     store = app.continuities();
                     ("reopen".into(), true)
+                }
+                25 => {
+                    // what a process death between a frame's body and its newline leaves: the last frame
+                    // is whole but unterminated. The next authority opens the log over it; the bytes that
+                    // are there (a frame `replay` already serves) must stay where they are.
+                    let body = if rng.chance(1, 2) { "x".repeat(rng.range(9_000, 30_000) as usize) } else { "short".to_string() };
+                    let _ = store.append_message(&t, "u".into(), "cli".into(), body);
+                    let mut bytes = read();
+                    if bytes.last() == Some(&b'\n') {
+                        bytes.pop();
+                        let _ = std::fs::write(&log_path, &bytes);
+                    }
+                    let dangling = read();
+                    app = ripd::verif_export::VerifApp::new(data_dir.clone(), ws.clone());
+                    store = app.continuities();
+                    let reopened = read();
+                    let case = json!({"case": case_no, "ops_before": ops_done, "op": "reopen_over_unterminated_frame", "log_bytes": dangling.len()});
+                    check_step(&mut rep, &dangling, &reopened, false, "reopening the store over a whole but unterminated last frame", &case);
+                    rep.count("op_reopen_over_unterminated_frame");
+                    ("reopen_over_unterminated_frame".into(), false)
                 }
                 _ => {
                     let _ = store.ensure_default();
